@@ -104,6 +104,32 @@ func main() {
 		dumpFunc(w, f)
 		return
 	}
+	if *prop == "all" && *noEvid {
+		// one load, every property: used to evaluate seeded changes (no evidence is written)
+		var ids []string
+		for id := range registry {
+			ids = append(ids, id)
+		}
+		sort.Strings(ids)
+		for _, id := range ids {
+			ca := newChecker(w, id, *tier)
+			func() {
+				defer func() {
+					if r := recover(); r != nil {
+						ca.fail("CHECKER-PANIC", fmt.Sprint(r), 0, "the checker panicked")
+					}
+				}()
+				registry[id].run(ca)
+			}()
+			ca.applyFloors()
+			for _, o := range ca.Obls {
+				if o.Verdict != vOK {
+					fmt.Printf("FINDING property=%s rule=%s construct=%s site=%s :: %s\n", id, o.Rule, o.Key, o.Pos, o.Detail)
+				}
+			}
+		}
+		return
+	}
 	pr := registry[*prop]
 	if pr == nil {
 		var ids []string
